@@ -66,6 +66,7 @@ std::vector<Cmd> parse_list(const std::string& s) {
     Cmd c{tok.at(0)};
     if (c.kind == 'P') { auto p = tok.find(':', 2); c.a = std::stoi(tok.substr(2, p - 2)); c.b = std::stoi(tok.substr(p + 1)); }
     else if (c.kind == 'R') c.a = std::stoi(tok.substr(2));
+    else if (tok == "LOOP") c.kind = 'O';
     else if (c.kind != 'D') throw std::runtime_error("cmd");
     out.push_back(c);
   }
@@ -159,6 +160,7 @@ std::string run_case(const std::string& line) {
           }
           case 'R': hq->remove(reinterpret_cast<torrent::HashQueueNode::id_type>(uintptr_t(c.a + 1) * 64)); break;
           case 'D': self->process_callbacks(); break;
+          case 'O': while (true) self->process_callbacks(); break;  // event loop; unwound by AbortCase at case end
           }
         }
       } catch (const torrent::internal_error& e) {
@@ -188,10 +190,11 @@ std::string run_case(const std::string& line) {
   for (size_t i = 0; i < outcomes.size(); i++) out += (i ? "," : "") + std::to_string(outcomes[i].first) + ":" + outcomes[i].second;
   out += " H " + std::to_string(hq->size()) + " Q " + std::to_string(disk->hash_check_queue()->size()) + "." + std::to_string(hq->m_done_chunks.size()) +
          " M " + std::to_string(main_thread->m_callbacks.size()) + "." + std::to_string(disk->m_callbacks.size());
-  // blocking handle counts at the end (implementation only, appended after '#': not compared with the model)
+  // blocking mapping references held at the end (ChunkListNode::blocking summed over the chunk list): compared
+  // with the model (= number of pending nodes; the reference is released in the notification)
   int refs = 0;
   for (uint32_t i = 0; i < 16; i++) refs += (*chunks)[i].blocking();
-  out += " # B " + std::to_string(refs);
+  out += " B " + std::to_string(refs);
   // tear down what can be torn down safely; the queue / chunk list objects of an unfinished case are leaked
   torrent::ThreadDisk::destroy_thread();
   torrent::ThreadMain::m_thread_base = nullptr;
